@@ -231,6 +231,9 @@ void on_closed(const char *how) {
   if (W.closed_reports > 1) sim::violation("C06/close-reported-twice", "peer close reported more than once");
   if (W.max_threshold <= 1 && W.rx_presented != W.rx_written)
     sim::violation("C06/close-before-data", sim::fmt("peer close reported although only %lu of the %lu bytes the peer wrote before closing have been presented to the receive callback", (unsigned long)W.rx_presented, (unsigned long)W.rx_written));
+  // with a threshold: whenever the unconsumed bytes reach it (left-overs count), the last arrival must have been followed by a callback
+  else if (W.max_threshold > 1 && W.rx_written - W.rx_consumed >= (uint64_t)W.max_threshold && W.rx_presented != W.rx_written)
+    sim::violation("C06/close-before-data", sim::fmt("peer close reported with %lu unconsumed bytes in the receive buffer (threshold %ld), of which the last %lu were never presented to the receive callback", (unsigned long)(W.rx_written - W.rx_consumed), W.max_threshold, (unsigned long)(W.rx_written - W.rx_presented)));
 }
 
 bool tbox_send(long n) {
@@ -485,6 +488,11 @@ void execute(const sim::Plan &plan) {
           const uint8_t *p = rb->readableBegin();
           for (size_t i = 0; i < rb->readableSize(); ++i)
             if (p[i] != rx_byte(W.rx_consumed + i)) { sim::violation("C06/receive-stream-corrupt", "buffered receive data differs from what the peer wrote"); break; }
+          if (W.max_threshold > 1 && rb->readableSize() >= (size_t)W.max_threshold) {
+            sim::probe("threshold_reached_by_leftovers");
+            if (W.rx_presented != W.rx_written)
+              sim::violation("C06/data-held-back", sim::fmt("%zu unconsumed bytes sit in the receive buffer (threshold %ld) and the last %lu of them were never presented to the receive callback: left-overs count towards the threshold", rb->readableSize(), W.max_threshold, (unsigned long)(W.rx_written - W.rx_presented)));
+          }
         }
       }
     }
